@@ -45,6 +45,24 @@ Definition prefix_word (l : language) (t : token) : bool :=
   negb (kw_is t s_function) && negb (kw_is t s_const) && negb (kw_is t s_async) &&
   negb (kw_is t kw_new) && negb (kw_is t kw_record).
 
+(* parameter lists of JavaScript / TypeScript: plain tokens, nested parenthesis groups and FLAT brace groups —
+   destructuring patterns `{ a , b }`, default values `= { }`.  At one nesting depth no brace group may follow once a ")"
+   has occurred at that depth: `cb = ( a ) => { }` or `g ( x ) : T , { b }` inside a parameter list would be header
+   shapes of their own (Scope/GrammarAllProofsCex.v: cex_binner_headers).  The flag says whether a brace group may
+   still start at this depth. *)
+Inductive binner : bool -> list token -> Prop :=
+| bi_nil ok : binner ok []
+| bi_plain ok t r : plain t = true -> binner ok r -> binner ok (t :: r)
+| bi_group ok o g c r : is_lparen o = true -> binner true g -> is_rparen c = true -> binner false r ->
+                        binner ok (o :: g ++ c :: r)
+| bi_brace o flat c r : is_lbrace o = true -> forallb plain flat = true -> is_rbrace c = true -> binner true r ->
+                        binner true (o :: flat ++ c :: r).
+Inductive bgroup : list token -> Prop :=
+| bgroup_intro o g c : is_lparen o = true -> binner true g -> is_rparen c = true -> bgroup (o :: g ++ [c]).
+Inductive bgroups : list token -> Prop :=
+| bgroups_one g : bgroup g -> bgroups g
+| bgroups_more g r : bgroup g -> bgroups r -> bgroups (g ++ r).
+
 (* fhead l hd nm_off hend_off: hd is a function header of language l (from its first token to just before
    the body's "{"); the name is at hd[nm_off]; the recognised header shape ends at hd[hend_off) *)
 Inductive fhead (l : language) : list token -> nat -> nat -> Prop :=
@@ -55,32 +73,32 @@ Inductive fhead (l : language) : list token -> nat -> nat -> Prop :=
     l = LJava -> is_name nm = true -> groups gs -> kw_is thr s_throws = true -> forallb clause_tok clause = true ->
     fhead l (nm :: gs ++ thr :: clause) 0 (1 + length gs)
 | fh_method nm gs :                                   (* method shorthand: name (...) *)
-    is_jsts l = true -> is_name nm = true -> groups gs ->
+    is_jsts l = true -> is_name nm = true -> bgroups gs ->
     fhead l (nm :: gs) 0 (1 + length gs)
 | fh_function fk nm gs :
-    is_jsts l = true -> kw_is fk s_function = true -> is_name nm = true -> groups gs ->
+    is_jsts l = true -> kw_is fk s_function = true -> is_name nm = true -> bgroups gs ->
     fhead l (fk :: nm :: gs) 1 (2 + length gs)
 | fh_method_ret nm gs colon ty :
-    l = LTypeScript -> is_name nm = true -> groups gs -> is_operator colon s_colon = true -> type_seq ty ->
+    l = LTypeScript -> is_name nm = true -> bgroups gs -> is_operator colon s_colon = true -> type_seq ty ->
     fhead l (nm :: gs ++ colon :: ty) 0 (1 + length gs)
 | fh_function_ret fk nm gs colon ty :
-    l = LTypeScript -> kw_is fk s_function = true -> is_name nm = true -> groups gs ->
+    l = LTypeScript -> kw_is fk s_function = true -> is_name nm = true -> bgroups gs ->
     is_operator colon s_colon = true -> type_seq ty ->
     fhead l (fk :: nm :: gs ++ colon :: ty) 1 (2 + length gs)
 | fh_arrow nm eq gs arrow :
-    is_jsts l = true -> is_name nm = true -> is_operator eq s_eq = true -> groups gs -> is_symbol arrow s_arrow = true ->
+    is_jsts l = true -> is_name nm = true -> is_operator eq s_eq = true -> bgroups gs -> is_symbol arrow s_arrow = true ->
     fhead l (nm :: eq :: gs ++ [arrow]) 0 (2 + length gs + 1)
 | fh_arrow_async nm eq ak gs arrow :
-    is_jsts l = true -> is_name nm = true -> is_operator eq s_eq = true -> kw_is ak s_async = true -> groups gs ->
+    is_jsts l = true -> is_name nm = true -> is_operator eq s_eq = true -> kw_is ak s_async = true -> bgroups gs ->
     is_symbol arrow s_arrow = true ->
     fhead l (nm :: eq :: ak :: gs ++ [arrow]) 0 (3 + length gs + 1)
 | fh_const_arrow ck nm eq gs arrow :
-    is_jsts l = true -> kw_is ck s_const = true -> is_name nm = true -> is_operator eq s_eq = true -> groups gs ->
+    is_jsts l = true -> kw_is ck s_const = true -> is_name nm = true -> is_operator eq s_eq = true -> bgroups gs ->
     is_symbol arrow s_arrow = true ->
     fhead l (ck :: nm :: eq :: gs ++ [arrow]) 1 (3 + length gs + 1)
 | fh_const_arrow_async ck nm eq ak gs arrow :
     is_jsts l = true -> kw_is ck s_const = true -> is_name nm = true -> is_operator eq s_eq = true ->
-    kw_is ak s_async = true -> groups gs -> is_symbol arrow s_arrow = true ->
+    kw_is ak s_async = true -> bgroups gs -> is_symbol arrow s_arrow = true ->
     fhead l (ck :: nm :: eq :: ak :: gs ++ [arrow]) 1 (4 + length gs + 1).
 
 Inductive items_of (l : language) : nat -> list token -> list fdesc -> Prop :=
